@@ -65,6 +65,28 @@ Theorem C01c_output_size : forall tbl o doc,
 Proof. exact model_size. Qed.
 Print Assumptions C01c_output_size.
 
+(* the same bound as a function over N (binary numbers), so that it can be evaluated: bound_N tbl indent n =
+   Khdr + PhiN n + PhiN (n (2 n + 2 K + 122)), PhiN x = 24 x (2 x + 2 K + 122) + C 2 x,
+   C = 2 * 255 * (indent mod 256 + 1) + 2 K + Kns + 12.  The tie (vlib/convmodel.py) evaluates the same expression and checks
+   len(out) <= bound_N on every accepted case; its arithmetic is pinned to the Examples below. *)
+Theorem C01c_size_bound_N : forall tbl indent n, N.of_nat (size_bound tbl indent n) = bound_N tbl indent (N.of_nat n).
+Proof. exact size_bound_N. Qed.
+Print Assumptions C01c_size_bound_N.
+
+Theorem C01c_output_size_N : forall tbl o doc,
+  r_len (wbxml2xml_model tbl o doc) <= bound_N tbl (wo_indent o) (N.of_nat (length doc)).
+Proof. exact model_size_N. Qed.
+Print Assumptions C01c_output_size_N.
+
+Example C01c_ex_bound_267 : bound_N main_table 0 267 = 1946732541070.
+Proof. vm_compute. reflexivity. Qed.
+Example C01c_ex_bound_65536 : bound_N main_table 0 65536 = 3553674400644843700390.
+Proof. vm_compute. reflexivity. Qed.
+Example C01c_ex_bound_267_indent255 : bound_N main_table 255 267 = 1999164799570.
+Proof. vm_compute. reflexivity. Qed.
+Example C01c_ex_bound_65536_indent255 : bound_N main_table 255 65536 = 3553676638653977985190.
+Proof. vm_compute. reflexivity. Qed.
+
 (* without embedded documents (a tree built with 0 levels; in particular every document without an element named
    Data): the quadratic bound Phi(n) on what the tree can cost the generator *)
 Theorem C01c_tree_cost_level0 : forall tbl D forced meta bs evs t,
